@@ -751,6 +751,18 @@ def rule_R5(ctx, repo, flow):
             kinds.add("ctor-conflict")
         if isinstance(n, ast.BinOp) and isinstance(n.op, ast.BitAnd) and "get_params" in astq.canon(n):
             kinds.add("ctor-conflict")
+    bypass = []
+    for node in g2.nodes:
+        if node.id in g2.reachable() and isinstance(node.stmt, ast.Raise):
+            top = next((st for st in cn.body if any(x is node.stmt for x in ast.walk(st))), None)
+            if top is None:
+                continue
+            head = g2.node_of(top.test) if isinstance(top, (ast.If, ast.While)) else (g2.node_of(top.iter) if isinstance(top, ast.For) else g2.node_of(top))
+            if head is not None and not g2.must_pass(lambda n, head=head: n is head):
+                bypass.append(getattr(top, "lineno", "?"))
+    ctx.check(not bypass, "R5", "_check_names:no-bypass", "every rejecting test is reached on every path (no early return around the checks)",
+              "_check_names can return without evaluating the rejecting test(s) at line %s (an early return bypasses name validation for some inputs)"
+              % sorted(set(bypass)), ctx.loc(mod, cn))
     ctx.check(kinds == {"unique", "ctor-conflict", "separator"} and n_raise >= 3, "R5", "_check_names",
               "rejects duplicate names, names equal to constructor arguments, names containing `__`",
               "_check_names: tests found %s, %d raise sites (need unique, ctor-conflict, separator with one rejection each)" % (sorted(kinds), n_raise),
@@ -848,6 +860,36 @@ def _attr_literal(m, helper):
     return None
 
 
+INTROSPECTION = ("_get_param_names", "get_params", "set_params", "_get_params", "_set_params", "_replace_estimator")
+
+
+def rule_introspection_stateless(ctx, repo, classes):
+    """Parameter introspection is a function of the class's own constructor signature and the instance's attributes:
+    a result memoised on the class (or instance) is inherited by subclasses / goes stale (H2)."""
+    n = 0
+    for c in classes + [repo.cls(SK_BASE)]:
+        for mname in INTROSPECTION:
+            fn = c.methods.get(mname)
+            if fn is None:
+                continue
+            n += 1
+            first = fn.args.args[0].arg if fn.args.args else "self"
+            bad = []
+            for node in astq.walk_no_nested(fn):
+                if isinstance(node, ast.Attribute) and isinstance(node.ctx, ast.Store):
+                    d = dotted(node.value) or (astq.canon(node.value) if isinstance(node.value, ast.Call) else "")
+                    if d in ("cls", first + ".__class__") or d.startswith("type(") or (first == "cls" and d == "cls"):
+                        bad.append(node)
+                if isinstance(node, ast.Call) and astq.call_name(node) == "setattr" and node.args and \
+                        (dotted(node.args[0]) in ("cls", first + ".__class__") or (isinstance(node.args[0], ast.Call) and astq.call_name(node.args[0]) == "type")):
+                    bad.append(node)
+            decs = [d for d in (c.decorators.get(mname) or []) if d and ("cache" in d)]
+            ctx.check(not bad and not decs, "R5", "%s.%s:not-memoised" % (c.qual, mname), "no result cached on the class",
+                      "%s.%s caches its result on the class (%s): subclasses inherit the parent's cached value and get wrong parameter names"
+                      % (c.name, mname, ", ".join(sorted({getattr(b, "attr", "setattr") for b in bad}) or decs)), ctx.loc(c.module, fn))
+    ctx.count("introspection_methods", n)
+
+
 def run(ctx):
     repo = ctx.repo
     flow = Flow(repo)
@@ -865,6 +907,7 @@ def run(ctx):
     rule_R3(ctx, repo, flow, sk)
     rule_R4(ctx, repo, flow, sk)
     rule_R5(ctx, repo, flow)
+    rule_introspection_stateless(ctx, repo, classes)
     if len(classes) < 140 or n < 100:
         raise AnalysisError("estimator class discovery collapsed: %d classes, %d constructors" % (len(classes), n))
     ctx.floor("R1", 300)
